@@ -105,6 +105,7 @@ pub struct SearchRecord {
     pub iterations: u64,
     pub post_cancel_max: u64,
     pub cancel_mid_iteration: u64,
+    pub interrupts: u64,
     pub max_workers: usize,
     pub world_steps: u64,
     pub artifact_entries: usize,
@@ -166,7 +167,7 @@ fn run_one(case: &SearchCase, spec: &SearchSpec, artifact: Option<SearchArtifact
         r.node_cap = case.node_cap;
         r.triggers.clear();
         r.max_workers_in_iteration = 0;
-        (r.probe.nodes_total, r.probe.iterations, r.probe.cancel_mid_iteration)
+        (r.probe.nodes_total, r.probe.iterations, r.probe.cancel_mid_iteration, r.probe.interrupts_observed)
     });
     RECS.with(|r| r.borrow_mut().push(SearchRecord::default()));
     STOP_SENT.with(|s| s.set(false));
@@ -334,13 +335,14 @@ fn run_one(case: &SearchCase, spec: &SearchSpec, artifact: Option<SearchArtifact
         }
     };
     let st = verif::artifact_stats(&art);
-    let (nodes, its, pcm, cmi, mw) = world::with(|r| {
+    let (nodes, its, pcm, cmi, mw, intr) = world::with(|r| {
         (
             r.probe.nodes_total - base.0,
             r.probe.iterations - base.1,
             r.probe.post_cancel_nodes_max,
             r.probe.cancel_mid_iteration - base.2,
             r.max_workers_in_iteration,
+            r.probe.interrupts_observed - base.3,
         )
     });
     weechess_simrt::probe::search_returned();
@@ -350,6 +352,7 @@ fn run_one(case: &SearchCase, spec: &SearchSpec, artifact: Option<SearchArtifact
         rec.iterations = its;
         rec.post_cancel_max = pcm;
         rec.cancel_mid_iteration = cmi;
+        rec.interrupts = intr;
         rec.max_workers = mw;
         rec.artifact_entries = st.entries;
         rec.artifact_capacity = st.max_entries;
@@ -457,7 +460,10 @@ pub fn run(ctx: &Ctx, case: &SearchCase, spec: &SchedSpec) -> RunReport {
             }
         }
         stats.nodes += r.nodes;
-        stats.probe_n("cancel-observed-mid-iteration", r.cancel_mid_iteration);
+        stats.probe_n("cancel-observed-mid-iteration", r.interrupts);
+        if r.stop_before_done && r.interrupts == 0 && r.returned {
+            stats.probe("stop-took-effect-between-iterations-or-too-late");
+        }
         if r.max_workers >= 2 {
             stats.probe("multi-worker-iteration");
         }
